@@ -20,6 +20,7 @@ EXPLANATION = (
     "reported here as a divergence); R4 the differences that remain are exactly the frozen whitelist taken from the property (resolution, "
     "away/sleep, intelligent auto, bypass, per-mode limits, AT4 turbo flag / control-method selection / group poll / ability fallbacks, AT5 zero-"
     "zone echo)."
+    ' Rounds 7-8: R3 compares every call on the socket, the heartbeat manager and shutdown/init between the generations; R5 includes the shutdown rules (C15.R3), C10.R2/R4 and the quick-timer grid.'
 )
 ASSUMPTIONS = ["the two generations are meant to be line-for-line siblings outside the documented differences (true of the pinned tree)"]
 FLOORS = {"C19.R1": 60, "C19.R2": 10, "C19.R3": 40, "C19.R5": 1, "C19.R4": 12}
